@@ -113,7 +113,7 @@ def main(ck):
     q0 = np.array(d.qpos)
     v0 = np.array(d.qvel)
     k = kin.fk(S, q0, np.array(d.mocap_pos), np.array(d.mocap_quat))
-    labels = list(gm.labels()) + gs.classify(lib, m)
+    labels = gs.brief(gm.labels(), ('tendon:',)) + gs.classify(lib, m)
 
     # ---------------- (a) frames
     def frames(dd):
@@ -407,6 +407,8 @@ def main(ck):
   ck.extra['tolerances'] = dict(H=H, TOL_FD=TOL_FD, K_EXACT=K_EXACT)
   ck.extra['carved_jacdot_ball_then_joint'] = carved
 
+
+replay = gs.make_replay(main)
 
 LEVEL = 'exploration'
 TECHNIQUE = ('property-based testing: central finite differences of the engine\'s own kinematics along mj_integratePos '
